@@ -64,7 +64,7 @@ type backend struct {
 	// ops are the mutation kinds enabled in this run and nLinked, nDed,
 	// nHuman the pool sizes (swarm testing: each run concentrates on a
 	// random subset of behaviours and a small key space).
-	ops                  []int
+	ops                   []int
 	nLinked, nDed, nHuman int
 
 	// The device and address of the last dedicated / linked address change.
@@ -634,6 +634,9 @@ type world struct {
 	// reaches the storage, or when the Refresh call that asked for it returns.
 	overlap bool
 
+	// diskGone is set while the cache directory is moved away.
+	diskGone bool
+
 	lastStored *version // version written by the last store that completed
 	storing    *version // version a store in progress is writing
 	images     int
@@ -1022,7 +1025,7 @@ func run(s *kernel.Sim, _, cfg string) {
 	crash := cfg != "nocrash" && cfg != "toggle" && !w.overlap
 	s.DeferBackground = true
 	s.Invariant = func() {
-		if !crash || w.storing == nil {
+		if !crash || w.storing == nil || w.diskGone {
 			return
 		}
 		for _, site := range s.ParkedSites() {
@@ -1050,10 +1053,28 @@ func run(s *kernel.Sim, _, cfg string) {
 			time.Sleep(gap)
 
 			before, _ := os.ReadFile(cachePath)
+
+			// The disk fault: the cache directory is not there while this
+			// synchronisation runs, so that a full one cannot write its
+			// file.  What it has fetched must be applied all the same.
+			if !w.overlap && t.Chance(1, 8, "cache-dir-gone") {
+				w.diskGone = true
+				if rerr := os.Rename(cacheDir, cacheDir+".away"); rerr != nil {
+					panic(rerr)
+				}
+				s.Fault("cache-directory-gone")
+			}
+
 			w.refreshStart = w.stamp()
 			s.Logf("syncer: refresh#%d begins@%d", i, w.refreshStart)
 			rerr := w.db.Refresh(context.Background())
 			end := w.stamp()
+			if w.diskGone {
+				if rnerr := os.Rename(cacheDir+".away", cacheDir); rnerr != nil {
+					panic(rnerr)
+				}
+				w.diskGone = false
+			}
 			if w.overlap {
 				w.commitPending(end)
 				w.storing = nil
